@@ -99,6 +99,11 @@ def check_case(case) -> Outcome:
     if got.shape[1] != len(names):
         out.fail("column-count", f"{s!r}: {got.shape[1]} columns, {len(names)} names", **feat)
         return out
+    # the spec attached to the matrix names the same columns and reproduces the same numbers on the same data
+    again = mm.model_spec.get_model_matrix(df, context={})
+    A_ = dense(again).reshape(fr["n"], -1)
+    if list(again.model_spec.column_names) != names or A_.shape != got.shape or not np.allclose(A_, got, rtol=1e-12, atol=1e-12, equal_nan=True):
+        out.fail("spec-reproduces-matrix", f"{s!r}: the matrix rebuilt from its own model spec differs: names {list(again.model_spec.column_names)} vs {names}", **feat)
     if not efr:
         en, eM, _ = E.expected_full(fc, fr)
         if names != en:
